@@ -86,3 +86,30 @@ Theorem C02_engine_sound : forall U ci s r i j c,
   (forall i', (i' < i)%nat -> match_at U ci s r i' = None).
 Proof. exact search_sound. Qed.
 Print Assumptions C02_engine_sound.
+(* ---- closed model (Model/E2EClosed.v): get_citations as a function of the text and the current year,
+   every candidate, token, metadata search and reference match computed inside the model from the tables
+   regenerated from /repo.  The hypotheses about candidates, token stream, reference matches (and, by the
+   kernel's run over the live extractor table, about stop-word groups, edition sources and non-empty
+   tokens) are DISCHARGED; what is left are facts about the nine metadata regexes and the short-form
+   extractor regexes on the text at hand, which the harness checks on every recorded call / token ---- *)
+From EV Require Import Model.Extract Model.E2E Model.RefEngine Model.E2EClosed Proofs.ClosedProofs Proofs.ClosedCorollaries.
+
+Theorem C02_closed_offsets : forall this_year s ra l,
+  s <> s_eyecite -> short_page_ok s ->
+  search_ok (engine_search Gen.Unicode.U meta_table) ->
+  (forall w, engine_search Gen.Unicode.U meta_table PPostShort w <> None) ->
+  get_citations_closed this_year s ra = Ok l ->
+  Forall (offsets_ok s) l.
+Proof. exact closed_offsets'. Qed.
+Print Assumptions C02_closed_offsets.
+
+(* the reference-pattern matches computed by the engine satisfy the contract assumed of the oracle *)
+Theorem C02_refs_engine_ok : refs_ok refs_engine.
+Proof. exact refs_engine_ok. Qed.
+Print Assumptions C02_refs_engine_ok.
+
+(* the computed stream satisfies what C02_offsets assumes of the stream *)
+Theorem C02_closed_stream : forall s,
+  stream_ok s (fst (tokenize_text s)) /\ cits_ok (fst (tokenize_text s)) (snd (tokenize_text s)).
+Proof. exact tokenize_text_stream_ok. Qed.
+Print Assumptions C02_closed_stream.
